@@ -6,6 +6,8 @@ import (
 	"io"
 	"math/rand/v2"
 	"os"
+	"runtime"
+	"sync/atomic"
 	"strings"
 	"sync"
 	"testing"
@@ -280,12 +282,24 @@ func runC01(c c01Case, rng *rand.Rand, r *rep.Report) (key, msg string, stats ma
 				}
 				if ps := w.Gate.Parked(); len(ps) > 0 {
 					stats["gate:check_parked_after_writable_test"]++
-					sock.Send(types.NewStringBufferString("gate-extra"), nil, nil)
 					mu.Lock()
 					sent = append(sent, sentRec{-1, 0, false, []byte("gate-extra")})
 					mu.Unlock()
-					if rng.IntN(3) == 0 {
-						rig.Wait()
+					// the application sends while the check is held after its Writable() test.  The
+					// held goroutine may own the session's flush mutex, so this goroutine must not
+					// wait on virtual time: spin on the real scheduler instead.
+					var done atomic.Bool
+					go func() {
+						sock.Send(types.NewStringBufferString("gate-extra"), nil, nil)
+						done.Store(true)
+					}()
+					for i := 0; i < 3000 && !done.Load(); i++ {
+						runtime.Gosched()
+					}
+					if done.Load() {
+						stats["gate:send_completed_while_check_held"]++
+					} else {
+						stats["gate:send_blocked_while_check_held"]++
 					}
 					w.Gate.ReleaseAll()
 				}
